@@ -234,6 +234,19 @@ def gen_c04(seed, tier='quick', opts=None):
         ops.append({'t': round(tl, 3), 'op': 'add', 'peer': g.pick(users)['uid'],
                     'tasks': [t['id']], 'linger': round(g.uni(0.05, 2.0), 3),
                     'via': via})
+    # one request naming a UID twice: an incarnation that is all in the past, replaced at once by the real one
+    # (and the other way round); sent in one write, so both are handled in one wake-up
+    gd = G(seed ^ 0x2b1d)
+    for o in list(ops):
+        if o['op'] == 'add' and len(o['tasks']) == 1 and gd.chance(opts.get('p_twice', 0.08)):
+            orig = tasks[o['tasks'][0]]
+            if orig['spec'].get('rdates') or len(orig['spec']['rules']) > 1:
+                continue
+            sp2 = arith_spec(gd, orig['spec']['uid'], o['t'], horizon, dict(opts, where='allpast', p_rule2=0, p_rdate=0))
+            twin = finish_task(len(tasks), sp2, lo=lo)
+            tasks.append(twin)
+            o['tasks'] = [twin['id'], orig['id']] if gd.chance(0.7) else [orig['id'], twin['id']]
+            o['via'] = 'raw'
     # group some adds into one request
     if len(ops) > 1 and g.chance(0.4):
         a = ops[0]
@@ -285,7 +298,7 @@ def gen_c04(seed, tier='quick', opts=None):
     for _ in range(g.wpick([(0, 4), (1, 2), (3, 1)])):
         ops.append({'t': round(t0 + g.uni(1, horizon), 3), 'op': 'stall',
                     's': round(g.pick([0.5, 3, 20, 90, horizon * 0.2]), 3)})
-    if g.chance(opts.get('p_spawnfault', 0.0)):
+    if g.chance(opts.get('p_spawnfault', 0.1)):
         ops.append({'t': round(t0 + g.uni(1, horizon), 3), 'op': 'spawnfault',
                     'which': g.pick(['pipe', 'spawn']), 'errno': g.pick(['EAGAIN', 'EMFILE', 'ENOMEM']),
                     'count': g.rint(1, 3)})
@@ -474,6 +487,37 @@ def gen_c11(seed, tier='quick', opts=None):
                 path += '?' + '&'.join('tuid=' + g.pick(pool + ['nosuch@sim']).replace(' ', '%20')
                                        for _i in range(g.rint(1, 3)))
             ops.append({'t': round(t, 4), 'op': 'get', 'peer': peer, 'path': path})
+    # a daemon that has seen hundreds of distinct UID strings (its string interner keeps them all; replies, listings
+    # and checkpoints turn task keys back into strings)
+    if g.chance(opts.get('p_manyuids', 0.06)):
+        nu = g.rint(150, 320)
+        stem = g.pick(['m%d@sim', 'job-%d@host.example', 'x%d', 'backup.%d.daily@sim'])
+        k = 0
+        many = []
+        while k < nu:
+            peer = g.pick(peers)
+            tids = []
+            for _i in range(g.rint(8, 24)):
+                if k >= nu:
+                    break
+                uid = stem % k
+                k += 1
+                sp = {'uid': uid, 'cmd': 'job %s' % uid, 'start': int(t + horizon + 3600 + k), 'rules': []}
+                tk = finish_task(len(tasks), sp, lo=t0 - 10)
+                tasks.append(tk)
+                tids.append(tk['id'])
+                many.append((uid, peer))
+            ops.append({'t': round(t, 4), 'op': 'add', 'peer': peer, 'tasks': tids,
+                        'linger': round(g.uni(0.05, 0.5), 3), 'via': g.pick(['raw', 'raw', 'echsq'])})
+            t += g.uni(0.01, 0.3)
+        for _i in range(g.rint(2, 8)):
+            uid, peer = g.pick(many)
+            ops.append({'t': round(t, 4), 'op': 'cancel', 'peer': peer, 'uids': [uid],
+                        'linger': 0.2, 'via': g.pick(['echsq', 'raw'])})
+            t += g.uni(0.01, 0.3)
+        for peer in set(p_ for _, p_ in many):
+            ops.append({'t': round(t, 4), 'op': 'get', 'peer': peer, 'path': '/queue'})
+            t += 0.2
     # changes on both sides of a periodic checkpoint, listed right after being acknowledged
     # (the queue listing is served from the user's checkpoint file)
     if g.chance(opts.get('p_cptail', 0.3)):
@@ -631,10 +675,38 @@ def gen_c06(seed, tier='quick', opts=None):
     ops1 = []
     for u in users[:6]:
         ops1.append({'t': round(e1 + 0.5, 3), 'op': 'get', 'peer': u['uid'], 'path': '/sched'})
-    ops1.append({'t': round(e1 + g.pick([30, 120, 400]), 3), 'op': 'crash'})
+    epochs = [{'start': t0, 'ops': ops}, {'start': round(e1, 3), 'ops': ops1}]
+    if g.chance(0.6):
+        # life goes on after the restart: further accepted changes, a clean shutdown, another restart
+        # (whatever the crashed checkpoint left lying around in the spool must not get in the way)
+        t1 = e1 + 1.0
+        for _ in range(g.rint(1, 4)):
+            if owners and g.chance(0.4):
+                uid = g.pick(sorted(owners))
+                ops1.append({'t': round(t1, 3), 'op': 'cancel', 'peer': owners[uid], 'uids': [uid], 'linger': 0.1})
+            else:
+                peer = g.pick(users)['uid']
+                uid = 'r%d@sim' % len(tasks)
+                sp = arith_spec(g, uid, t1, horizon, {'max_occ': 6, 'p_rule2': 0, 'p_rdate': 0, 'where': 'future', 'no_pre2001': True})
+                tk = finish_task(len(tasks), sp, lo=t0 - 10)
+                tasks.append(tk)
+                owners[uid] = peer
+                ops1.append({'t': round(t1, 3), 'op': 'add', 'peer': peer, 'tasks': [tk['id']],
+                             'linger': 0.1, 'via': g.pick(['echsq', 'raw'])})
+            t1 += g.uni(0.05, 1.0)
+        if g.chance(0.4):
+            ops1.append({'t': round(t1, 3), 'op': 'get', 'peer': g.pick(users)['uid'], 'path': '/queue'})
+        tq = t1 + g.pick([0.5, 10, 70])
+        ops1.append({'t': round(tq, 3), 'op': 'sigterm'})
+        ops1.append({'t': round(tq + 1, 3), 'op': 'crash'})
+        e2 = tq + g.pick([3, 60])
+        ops2 = [{'t': round(e2 + 0.5, 3), 'op': 'get', 'peer': u['uid'], 'path': '/sched'} for u in users[:6]]
+        ops2.append({'t': round(e2 + 30, 3), 'op': 'crash'})
+        epochs.append({'start': round(e2, 3), 'ops': ops2})
+    else:
+        ops1.append({'t': round(e1 + g.pick([30, 120, 400]), 3), 'op': 'crash'})
     plan = {'v': 1, 'engine': 'simd', 'property': 'C06', 'seed': seed, 'cfg': cfg, 'users': users,
-            'tasks': tasks, 'life': {'*': [[0.3, 0, 0.0]]},
-            'epochs': [{'start': t0, 'ops': ops}, {'start': round(e1, 3), 'ops': ops1}]}
+            'tasks': tasks, 'life': {'*': [[0.3, 0, 0.0]]}, 'epochs': epochs}
     return plan
 
 
